@@ -66,13 +66,15 @@ ANGLES = [0.0, PI, -PI, PI / 2, -PI / 2, PI / 4, 2 * PI, 3 * PI, 4 * PI, PI / 3]
 @st.composite
 def oneq(draw, generic_weight=1):
     """1-qubit unitary recipe: exact named gates, axis rotations with special / near-special angles, QR-generic."""
-    k = draw(st.sampled_from(["named", "named", "rot", "rot", "rot"] + ["qr"] * generic_weight))
+    # Hypothesis never repeats an example, so the small "named" class saturates; weights are tuned on the measured
+    # label histogram (special >= 55 %), not on nominal probabilities
+    k = draw(st.sampled_from(["rot"] * 8 + ["named"] * 3 + ["qr"] * generic_weight))
     ph = draw(phases())
     if k == "named":
         return {"k": "named", "name": draw(st.sampled_from(sorted(NAMED_1Q))), "ph": ph}
     if k == "rot":
-        axis = draw(st.one_of(st.sampled_from(AXES), st.lists(unit_floats(), min_size=3, max_size=3)))
-        ang = draw(st.one_of(st.sampled_from(ANGLES), st.floats(-2 * PI, 2 * PI, allow_nan=False, width=64)))
+        axis = draw(st.one_of(st.sampled_from(AXES), st.sampled_from(AXES), st.lists(unit_floats(), min_size=3, max_size=3)))
+        ang = draw(st.one_of(st.sampled_from(ANGLES), st.sampled_from(ANGLES), st.floats(-2 * PI, 2 * PI, allow_nan=False, width=64)))
         # at most one near-tolerance perturbation: of the angle, or a small tilt of the axis (near-Pauli axes)
         mode = draw(st.sampled_from(["none", "none", "angle", "angle", "tilt"]))
         e = draw(st.sampled_from(EPS[1:])) * draw(st.sampled_from([1, -1])) if mode == "angle" else 0.0
